@@ -14,7 +14,8 @@
 //                              the git dir / common dir are spelled (relative to a sub directory, through a symlink, absolute)
 //   path_model                 the component model the rule-O1 stubs state (join / parent / starts_with / strip_prefix / ==)
 //                              against std::path itself
-// REPOFIND_STRICT=1 also evaluates the named deviation classes (REPORT.md findings repofind-1, repofind-2).
+//   is_linked_worktree_gitfile the real helper (rule-O1 stub opq_file_is_worktree_gitfile of the proof) against git-worktree(1)'s layout
+// REPOFIND_STRICT=1 also evaluates the named deviation class repofind-2 (`-C` read as the value of another global option).
 #![allow(dead_code, unused)]
 use std::collections::{HashMap, HashSet, BTreeMap};
 use std::cell::RefCell;
@@ -57,9 +58,9 @@ impl Rng { fn next(&mut self) -> u64 { self.0 ^= self.0 << 13; self.0 ^= self.0 
 // ---------------------------------------------------------------------------------------------- scenarios on the real file system
 /// tree entry kinds: d plain dir | G dir with a `.git` DIRECTORY | W linked-worktree git file | S submodule git file (relative,
 /// as git writes it) | A submodule git file (absolute) | N linked-worktree git file of a repository whose path contains the WORD
-/// modules (no such directory) | M linked-worktree git file of a repository below a directory NAMED modules (deviation repofind-1)
-/// | P git file of a repository with a separate git dir | X a `.git` file that is no git file | f regular file | L=<rel> symlink
-const KINDS: &[char] = &['d', 'G', 'W', 'S', 'A', 'N', 'M', 'P', 'X'];
+/// modules (no such directory) | M linked-worktree git file of a repository below a directory NAMED modules (finding repofind-1)
+/// | P git file of a repository with a separate git dir | Q the same, the git dir's NAME contains the word modules | X a `.git` file that is no git file | f regular file | L=<rel> symlink
+const KINDS: &[char] = &['d', 'G', 'W', 'S', 'A', 'N', 'M', 'P', 'Q', 'X'];
 fn gitfile_text(kind: char, root: &Path, name: &str) -> Option<String> {
     let r = root.display();
     Some(match kind {
@@ -69,6 +70,7 @@ fn gitfile_text(kind: char, root: &Path, name: &str) -> Option<String> {
         'N' => format!("gitdir: {}/my_modules_repo/.git/worktrees/{}\n", r, name),
         'M' => format!("gitdir: {}/modules/app/.git/worktrees/{}\n", r, name),
         'P' => format!("gitdir: {}/gitdirs/{}.git\n", r, name),
+        'Q' => format!("gitdir: {}/gitdirs/node_modules_{}.git\n", r, name),
         'X' => "this is not a git file\n".to_string(),
         _ => return None,
     })
@@ -86,7 +88,7 @@ fn build_tree(root: &Path, tree: &[(String, String)]) {
     }
 }
 #[derive(PartialEq, Debug)]
-enum Class { NoGit, Root, Submodule, DeviationWorktreeUnderModules }
+enum Class { NoGit, Root, Submodule }
 /// git's documented layouts, read from the git file itself
 fn classify(d: &Path) -> Class {
     let g = d.join(".git");
@@ -97,20 +99,19 @@ fn classify(d: &Path) -> Class {
     let comps: Vec<&str> = target.split('/').filter(|c| !c.is_empty()).collect();
     let linked_worktree = comps.len() >= 2 && comps[comps.len() - 2] == "worktrees";
     let below_modules_dir = comps.iter().rev().skip(1).any(|c| *c == "modules");
-    if linked_worktree { if below_modules_dir { Class::DeviationWorktreeUnderModules } else { Class::Root } }
+    if linked_worktree { Class::Root }   // also below a directory named `modules` (finding repofind-1, repaired in /repo d2a6a3ba)
     else if below_modules_dir { Class::Submodule } else { Class::Root }
 }
-/// (expected nearest root, a deviation-class directory was met on the way)
-fn expected_root(file: &Path, boundary: Option<&Path>) -> (Option<PathBuf>, bool) {
+/// the expected nearest root
+fn expected_root(file: &Path, boundary: Option<&Path>) -> Option<PathBuf> {
     let start = if file.is_dir() { file.to_path_buf() } else { file.parent().map(|p| p.to_path_buf()).unwrap_or(file.to_path_buf()) };
     let start = start.canonicalize().unwrap_or(start);
     let b = boundary.map(|b| b.canonicalize().unwrap_or(b.to_path_buf()));
-    let mut dev = false;
     for d in start.ancestors() {
         if let Some(b) = &b { if !d.starts_with(b) { continue; } }
-        match classify(d) { Class::Root => return (Some(d.to_path_buf()), dev), Class::DeviationWorktreeUnderModules => { dev = true; return (Some(d.to_path_buf()), dev); } _ => {} }
+        if classify(d) == Class::Root { return Some(d.to_path_buf()); }
     }
-    (None, dev)
+    None
 }
 fn same_dir(a: &Path, b: &Path) -> bool { a.canonicalize().unwrap_or(a.to_path_buf()) == b.canonicalize().unwrap_or(b.to_path_buf()) }
 fn enc_tree(tree: &[(String, String)]) -> String { tree.iter().map(|(p, k)| format!("{}={}", p, k)).collect::<Vec<_>>().join(";") }
@@ -123,8 +124,7 @@ fn chk_find(c: &mut Ctx, tree: &[(String, String)], file: &str, boundary: &str) 
     let root = fresh(c); build_tree(&root, tree);
     let input = format!("{}#{}#{}", enc_tree(tree), file, boundary);
     let f = abs_of(&root, file); let b = if boundary == "-" { None } else { Some(abs_of(&root, boundary)) };
-    let (want, dev) = expected_root(&f, b.as_deref());
-    if dev && !c.strict { let _ = std::fs::remove_dir_all(&root); return; }
+    let want = expected_root(&f, b.as_deref());
     c.evaluated += 1;
     CALLS.with(|k| k.borrow_mut().clear());
     let fs = f.to_string_lossy().to_string(); let bs = b.as_ref().map(|p| p.to_string_lossy().to_string());
@@ -151,9 +151,8 @@ fn chk_group(c: &mut Ctx, tree: &[(String, String)], files: &[String], boundary:
     let input = format!("{}#{}#{}", enc_tree(tree), files.join(","), boundary);
     let b = if boundary == "-" { None } else { Some(abs_of(&root, boundary)) };
     let abs: Vec<String> = files.iter().map(|f| abs_of(&root, f).to_string_lossy().to_string()).collect();
-    let mut owners: Vec<Option<PathBuf>> = vec![]; let mut dev = false;
-    for f in &abs { let (w, d) = expected_root(Path::new(f), b.as_deref()); dev |= d; owners.push(w.filter(|w| git_can_open(w)).map(|w| w.canonicalize().unwrap_or(w))); }
-    if dev && !c.strict { let _ = std::fs::remove_dir_all(&root); return; }
+    let mut owners: Vec<Option<PathBuf>> = vec![];
+    for f in &abs { let w = expected_root(Path::new(f), b.as_deref()); owners.push(w.filter(|w| git_can_open(w)).map(|w| w.canonicalize().unwrap_or(w))); }
     c.evaluated += 1;
     let bs = b.as_ref().map(|p| p.to_string_lossy().to_string());
     match guarded(|| group_files_by_repository(&abs, bs.as_deref())) {
@@ -179,6 +178,29 @@ fn chk_group(c: &mut Ctx, tree: &[(String, String)], files: &[String], boundary:
         }
     }
     let _ = std::fs::remove_dir_all(&root);
+}
+
+
+// ---------------------------------------------------------------------------------------------- the helper behind the stub
+/// git-worktree(1): the git file of a linked worktree is `gitdir: <common dir>/worktrees/<id>`
+fn chk_helper(c: &mut Ctx) {
+    let root = Path::new("/r");
+    let mut cases: Vec<(String, bool)> = vec![];
+    for k in ['W', 'N', 'M'] { cases.push((gitfile_text(k, root, "wt").unwrap(), true)); }
+    for k in ['S', 'A', 'P', 'Q', 'X'] { cases.push((gitfile_text(k, root, "x").unwrap(), false)); }
+    cases.push(("gitdir: /r/modules/app/.git/worktrees/wt".to_string(), true));            // no final newline
+    cases.push(("gitdir: /r/super/.git/modules/sub/worktrees/wt\n".to_string(), true));    // a linked worktree of a submodule's repository
+    cases.push(("gitdir: /r/app/.git/worktrees/\n".to_string(), false));                   // no id
+    cases.push(("gitdir: /r/worktrees\n".to_string(), false));
+    cases.push(("gitdir: ../.git/modules/worktrees\n".to_string(), false));                // a submodule NAMED worktrees
+    cases.push(("".to_string(), false));
+    for (text, want) in cases {
+        c.evaluated += 1;
+        match guarded(|| is_linked_worktree_gitfile(&text)) {
+            Err(p) => c.fail("find_repository_for_file", "safety", esc(&text), p, "no panic".into()),
+            Ok(got) => { if got != want { c.fail("find_repository_for_file", "stub@opq_file_is_worktree_gitfile", esc(&text), format!("{}", got), format!("{} (linked worktree pointer: <common>/worktrees/<id>)", want)); } }
+        }
+    }
 }
 
 // ---------------------------------------------------------------------------------------------- -C
@@ -350,6 +372,7 @@ fn main() {
             chk_find(&mut c, &[("x/y".to_string(), "d".to_string())], "x/y/z.rs", "x");
             chk_find(&mut c, &[("x".to_string(), "G".to_string())], "@/", "-");
             chk_find(&mut c, &[("x".to_string(), "G".to_string())], "@relative/file.rs", "-");
+            chk_helper(&mut c);
         }
         if want("group_files_by_repository") {
             for _ in 0..1500 {
